@@ -304,6 +304,15 @@ fn case_block_mix<const LEN: usize>() {
     {
         let exp = spec_block_mix::<LEN>(&b);
         assert!(out == exp, "BlockMix: output = Y[0], Y[2], ..., Y[2r-2], Y[1], Y[3], ..., Y[2r-1]");
+        // the recorded run does not depend on the Salsa values, so the solver's input is often degenerate (all-zero blocks make every Y
+        // equal): also try a fixed non-degenerate input; any failing input is a genuine violation of a for-all property
+        let mut b2 = [0u8; LEN];
+        for (i, x) in b2.iter_mut().enumerate() {
+            *x = (i * 7 + 1) as u8;
+        }
+        let mut out2 = prior;
+        scrypt_block_mix(&b2, &mut out2);
+        assert!(out2 == spec_block_mix::<LEN>(&b2), "BlockMix: output = Y[0], Y[2], ..., Y[2r-2], Y[1], Y[3], ..., Y[2r-1]");
     }
 }
 #[cfg_attr(kani, kani::proof)]
